@@ -18,6 +18,13 @@ PROP = {
         "GunYu.Props.C04.alteration_is_error_gen",
         "GunYu.Props.C04.itemT_good",
         "GunYu.Props.C04.itemT_total",
+        "GunYu.Props.C04.recorded_only_if_parsed_and_applied",
+        "GunYu.Props.C04.truncated_never_recorded",
+        "GunYu.Props.C04.altered_never_recorded",
+        "GunYu.Props.C04.altered_never_recorded_model",
+        "GunYu.Props.C04.readBytes_alloc_bounded",
+        "GunYu.Props.C04.readBytes_ok",
+        "GunYu.Props.C04.alloc_bounded_partial",
     ],
     "expected_facts": {},
     "harness": [
@@ -70,6 +77,8 @@ PROP = {
             "the cluster target (per-connection log of the double, a queued SCRIPT LOAD counts when its EXEC was executed); "
             "(3b) a list of 260 elements (expansion = 260 pipelined commands, flushed every 100): error reply / persistent failure / "
             "dropped connection / failure inside EXEC at the edges and inside of every batch plus seed-chosen positions. "
+            "(3c) the real ReadBytes(n) over a source of `avail` bytes (n up to 2^62, avail 0 .. 64 MiB+5) and the real LZF string "
+            "reader (outlen vs compressed length) in the worker child against Model/RdbAlloc (ops c04alloc, c04lzf). "
             "distinct_nontrivial = distinct (file, position) alteration rows + distinct fan-out scenario points",
     "trusted": [
         "RDB framing (opcodes, length forms, string forms, per-type value layout) as transcribed in Model/RdbFrame.lean and as "
@@ -98,11 +107,19 @@ PROP = {
         "silently, ignoring the commands behind the preamble - accepted, not a supported input",
     ],
     "partial": [
-        "memory exhaustion / wall-clock hang on damaged input is outside what a theorem about the model can say (parse_total only "
-        "states termination of the model within |input| steps); tied by the sweep with child processes and watchdogs",
+        "memory / wall-clock on damaged input: proved (alloc_bounded_partial, Model/RdbAlloc.lean) that each of the three buffers "
+        "pkg/rdb sizes by a field of the input - ReadBytes (D22), lzfDecompress' output, the stream master entry's field array (D32) - "
+        "is bounded by a linear function of the bytes actually present (+ one 64 MiB step), whatever the field says; tied by ops "
+        "c04alloc / c04lzf (the real ReadBytes / string reader in the worker child vs the model: returned length, ok/err, "
+        "refused/allocated). NOT proved: that these are ALL input-sized allocations of parser and decoders (found by review and "
+        "by the damaged-input sweep), the allocator's rounding, memory held by the pipeline across entries, and wall-clock time: "
+        "parse_total bounds the steps of the frame MODEL by the input length, a value decoder's loop that does not advance (D23) "
+        "is outside it - child processes with an address-space limit and watchdogs carry that part",
         "real goroutine interleavings are explored by synctest schedules and repeated runs, not exhaustively",
-        "no theorem links Part 2 to Part 1 (parse = err n  =>  the item list handed to the fan-out ends with term = err): that "
-        "composition is the code of ParseRdb's goroutine, covered by the sweep only",
+        "Part 2 -> Part 1 is now a theorem (recorded_only_if_parsed_and_applied, truncated_never_recorded, "
+        "altered_never_recorded: from the BYTES of the input to 'no schedule writes the checkpoint'); what it rests on is `feed` - "
+        "ParseRdb's goroutine sends one entry per parsed entry and then Err or Done - a four-line transcription of rdb.go's loop, "
+        "exercised by the sweep, not proved of the Go code",
         "alteration_is_error_gen is instantiated for the modelled grammar with 'outside the model' read as an error (itemT); for the "
         "real Loader.Next GoodItem / Total are trusted",
     ],
@@ -116,7 +133,10 @@ MANIFEST = {
             "footer) parsing is total within |input| steps, every truncation of an accepted file is an error, Done implies EOF opcode "
             "+ footer are the last 9 bytes and the footer is zero or the CRC64 of everything before; every single-byte alteration "
             "of a covered byte is refused (CRC-64/Jones separates strings differing in one byte, proved), an altered footer is "
-            "refused unless it becomes all-zero ('checksum disabled'). Tie: exhaustive truncation/XOR sweep of small files "
+            "refused unless it becomes all-zero ('checksum disabled'); (3) composition: from the BYTES of the input to the checkpoint - "
+            "for every input, worker count, routing and schedule the checkpoint is written / nil returned only if the input parses to "
+            "Done and every entry was applied; a truncated or (checksummed, one byte) altered snapshot is recorded in NO schedule; "
+            "(4, partial) the three buffers pkg/rdb sizes by an input field are bounded by the bytes actually present. Tie: exhaustive truncation/XOR sweep of small files "
             "through the real parser (vs model) and the real SendRdb against the target double with fault injection, cancellation at "
             "every request and the hold-cancel-release schedule under synctest; independent Go monitor of the property.",
     "note": "trusted: Lean kernel, RDB framing transcription, target double, synctest; models of the REPAIRED code (D6, D19 fixed; D22, D23, D26, D32 are crash/hang repairs outside the models)",
